@@ -503,10 +503,10 @@ def execute(trace):
     try:
         xfab.CHECKS.activated = True
         if xfab.CHECKS.activated is not True:
-            raise core.HarnessError("switch does not read True after the prologue assignment: state leaked from an "
-                                    "earlier run in this process, or the switch is broken beyond what a history can isolate")
-    except core.HarnessError:
-        raise
+            # either broken outright or dependent on what earlier histories of this process did; the runner
+            # re-validates from a clean process and, failing that, carries the earlier runs along as a prelude
+            violation = {"clause": "switch does not read True after assigning True", "site": "prologue",
+                         "detail": "activated=%r" % (xfab.CHECKS.activated,)}
     except Exception as e:  # the reset itself is part of the property (valid assignment)
         violation = {"clause": "valid assignment rejected", "site": "assign",
                      "detail": "reset to True raised %s" % type(e).__name__}
